@@ -6,14 +6,18 @@
    of the weights) is optimal among all layerings in which every edge spans at least its minimum length; the
    objective, feasibility and "no empty band" survive normalize and vbalance; init_layers and the tight-tree
    loop produce a feasible layering with a tight tree for every acyclic component.
-   C10 is decided by proof PLUS a per-instance kernel evaluation: that the pivot loop ENDS in a state accepted by
-   cert_ok is not proved for all inputs (it needs the correctness of the lim/low numbering and of the cut-value
-   computation, not mechanised); instead the model is run on every traced instance and cert_ok is evaluated on
-   the state it reaches (codes 1401-1403 of the correspondence), for runs whose iteration budget was not
-   exhausted. So the optimality of each explored instance is certified by the kernel; unexplored instances rest
-   on the correspondence of model and code. *)
+   And (Proofs/NS*.v, NSOpt*.v): the pivot loop keeps a spanning tree of tight edges with a valid lim/low
+   numbering; set_cut_values computes, for every tree edge, the net weight crossing the cut it induces; these cut
+   values form a flow with the divergence of the weights; hence whenever the loop stops because no tree edge has a
+   negative cut value — i.e. NOT on its iteration budget — the state is accepted by cert_ok and the layering is
+   optimal, also after normalize and balancing (C10_network_simplex_is_optimal). The "todo: figure out why this
+   could be nil" exit of the loop is shown to be dead code for non-negative weights. Bands are contiguous whether
+   or not the budget was exhausted (C10_no_empty_band).
+   The certificate checker is additionally evaluated by the kernel on every traced instance and on synthetic
+   components (codes 1401-1403; unit correspondence of the whole layering with the certified optimum). *)
 From Coq Require Import List ZArith.
 From Autog Require Import Graph Phase2 Optimality OptNormalize OptVbalance OptFeasible OptInit OptPipeline.
+From Autog Require NSDefs NSOptFinal NSOptHbalance.
 Import ListNotations.
 Open Scope Z_scope.
 
@@ -52,3 +56,32 @@ Theorem C10_initial_tree_feasible : forall g g' ll, vb_wf g -> NoDup (g_E g) -> 
   feasible g' /\ (forall e, In e (g_E g') -> e_tree (gedge g' e) = true -> slack g' e = 0) /\ fl_rel g g'.
 Proof. exact feasible_tree_feasible. Qed.
 Print Assumptions C10_initial_tree_feasible.
+
+(* the property itself: with network-simplex layering, once the edge directions are fixed (g acyclic), if the
+   iteration budget was not exhausted (second component of the result = false), the total edge length is minimal
+   among all layerings in which every edge spans at least its minimum length — for vertical balancing (the
+   layerer's default) and horizontal balancing alike *)
+Theorem C10_network_simplex_is_optimal : forall p g g',
+  NSDefs.ns_wf g -> acyclic g -> unit_weights g ->
+  exec_network_simplex_capped p g = Ok (g', false) ->
+  forall lay', feasible_lay lay' g' -> total_length (layer_of g') g' <= total_length lay' g'.
+Proof. exact NSOptHbalance.exec_network_simplex_optimal_all. Qed.
+Print Assumptions C10_network_simplex_is_optimal.
+
+(* in the words of the property (unit minimum lengths): every edge spans at least one band and the sum of the
+   spans is minimal *)
+Theorem C10_sum_of_spans_is_minimal : forall p g g',
+  NSDefs.ns_wf g -> acyclic g -> unit_weights g -> unit_deltas g -> ns_balance p = 1 ->
+  exec_network_simplex_capped p g = Ok (g', false) ->
+  (forall e, In e (g_E g') -> span (layer_of g') g' e >= 1) /\
+  forall lay', (forall e, In e (g_E g') -> span lay' g' e >= 1) -> sum_spans (layer_of g') g' <= sum_spans lay' g'.
+Proof. exact NSOptFinal.exec_network_simplex_min_spans_delta1. Qed.
+Print Assumptions C10_sum_of_spans_is_minimal.
+
+(* within a component bands are contiguous, budget exhausted or not *)
+Theorem C10_no_empty_band : forall p g g' b g'',
+  NSDefs.ns_wf g -> acyclic g -> unit_deltas g -> ns_balance p <> 2 ->
+  exec_network_simplex_capped p g = Ok (g', b) -> init_layer_slices g' = Ok g'' ->
+  forall i, (i < length (g_L g''))%nat -> l_nodes (glayer g'' i) <> [].
+Proof. exact NSOptFinal.exec_network_simplex_no_empty_band. Qed.
+Print Assumptions C10_no_empty_band.
